@@ -112,11 +112,7 @@ def _idp_for(md_keys, idp_cfg):
     if key in _idp_cache:
         return _idp_cache[key]
     ent = S.default_sp_entity()
-    keys = []
-    garbage = []
-    for i, (use, name, usable) in enumerate(md_keys):
-        keys.append((use, name))
-    ent["spsso"]["keys"] = keys
+    ent["spsso"]["keys"] = [(use, name) for use, name, _usable in md_keys]
     md = S.metadata_xml([ent])
     # an unusable certificate: the KeyDescriptor's certificate text is replaced by bytes that are no certificate
     if any(not u for _, _, u in md_keys):
@@ -581,9 +577,52 @@ def gen_cases(rng, tier):
                     sp = {"enc_keys": [rk]}
                     sp.update(_policy_for(rng, fl))
                     yield base_case(rng, fl, md, ca, cad, sp, t, "cell/%s/flip-%s" % (src, t))
-    n = 1200 if tier == "quick" else 14000
+    for c in corner_cases(rng):
+        yield c
+    n = 1200 if tier == "quick" else 24000
     for _ in range(n):
         yield random_case(rng)
+
+
+def corner_cases(rng):
+    """directed cases for the model branches the random stream reaches only now and then"""
+    adv = lambda: {"eduPersonAffiliation": [_mk(rng)]}  # noqa: E731
+    for sr, sa in itertools.product((False, True), repeat=2):
+        pol = {"want_resp": sr, "want_assert": sa}
+        # "" is falsy but not None: no downgrade, no certificate tried, the wrapper leaves with clear content
+        yield base_case(rng, _flags(sr, sa, True, False, True, False), "none", "", None, pol, None, "corner/empty-cert-assertion")
+        yield base_case(rng, _flags(sr, sa, False, False, True, True), "none", None, "", pol, None, "corner/empty-cert-advice")
+        yield base_case(rng, _flags(sr, sa, True, False, True, True), "none", "", "", pol, None, "corner/empty-cert-both")
+        yield base_case(rng, _flags(sr, sa, True, False, True, True), "none", "sp_enc1", "", pol, None, "corner/wrapped-advice-in-sealed")
+        yield base_case(rng, _flags(sr, sa, True, False, True, True), "none", "", "sp_enc1", pol, None, "corner/sealed-advice-in-wrapper")
+        # unusable certificates: skipped when another one works, refusal when none does
+        yield base_case(rng, _flags(sr, sa, True, False, True, True), "garbage-first", None, None, pol, None, "corner/garbage-first")
+        yield base_case(rng, _flags(sr, sa, True, False, True, False), "garbage-only", None, None, pol, None, "corner/garbage-only")
+        yield base_case(rng, _flags(sr, sa, True, False, True, False), "md", "garbage", None, pol, None, "corner/garbage-explicit")
+        yield base_case(rng, _flags(sr, sa, False, False, True, True), "md", None, "garbage", pol, None, "corner/garbage-explicit-advice")
+        # advice and assertion sealed for different keys; the recipient holds one, the other, both
+        for keys in (["sp_enc1"], ["sp_enc2"], ["sp_enc2", "sp_enc1"]):
+            sp = dict(pol, enc_keys=keys)
+            yield base_case(rng, _flags(sr, sa, True, False, True, True), "md", None, "pem:sp_enc2", sp, None, "corner/two-keys")
+        # an advice assertion handed in outside PEFIM: signed and sealed in part B, object-form refusals
+        for ea, eaa, sc in itertools.product((False, True), repeat=3):
+            c = base_case(rng, _flags(sr, sa, ea, eaa, sc, False), "md", None, None, pol, None, "corner/extra-advice")
+            c["advice_identity"] = adv()
+            yield c
+        c = base_case(rng, _flags(sr, sa, False, True, False, False), "none", None, "", pol, None, "corner/extra-advice-parse-object")
+        c["advice_identity"] = adv()
+        yield c
+        c = base_case(rng, _flags(sr, sa, True, True, True, False), "md", None, None, dict(pol, enc_keys=["sp_enc1"]), "data", "corner/extra-advice-flip")
+        c["advice_identity"] = adv()
+        yield c
+    # keyword None -> configuration -> default, one flag at a time
+    for name in FLAG_NAMES:
+        for cfgv in (None, False, True):
+            fl = _flags(False, False, True, False, True, False)
+            fl[name] = None
+            c = base_case(rng, fl, "md", None, None, None, None, "corner/resolution")
+            c["idp_cfg"] = {name: cfgv}
+            yield c
 
 
 def random_case(rng):
@@ -592,8 +631,8 @@ def random_case(rng):
           "encrypted_advice_attributes": tri(), "encrypt_assertion_self_contained": tri(), "pefim": rng.random() < 0.4}
     if rng.random() < 0.5:
         fl["encrypt_assertion"] = True
-    md = rng.choice(["md", "md", "md", "none", "md2", "garbage-first", "garbage-only", "no-use", "empty"])
-    cert = lambda: rng.choice([None, None, None, "", "sp_enc1", "sp_enc2", "pem:sp_enc2", "garbage", "attacker"])  # noqa: E731
+    md = rng.choice(["md"] * 6 + ["none", "none", "md2", "md2", "garbage-first", "garbage-only", "no-use", "empty"])
+    cert = lambda: rng.choice([None] * 8 + ["", "sp_enc1", "sp_enc1", "sp_enc2", "sp_enc2", "pem:sp_enc2", "garbage", "attacker"])  # noqa: E731
     ca, cad = cert(), cert()
     if rng.random() < 0.3:
         cad = ca
